@@ -199,7 +199,16 @@ def entry_points_raise(nodes):
         prune=lambda: prune(root, copy=True), marginalize=lambda: marginalize(root, [root.scope[0]], copy=True),
         moment=lambda: moment(root, 1),
         em=lambda: expectation_maximization(root, x, num_iter=1, batch_perc=1.0, step_size=0.5, random_init=False,
-                                            random_state=0, verbose=False))
+                                            random_state=0, verbose=False),
+        # the same entry points under their other options (a gate must not depend on an option)
+        log_likelihood_parallel=lambda: log_likelihood(root, x, n_jobs=2),
+        log_likelihood_results=lambda: log_likelihood(root, x, return_results=True),
+        mpe_parallel=lambda: mpe(root, xn, n_jobs=2), sample_parallel=lambda: sample(root, xn, n_jobs=2),
+        mpe_inplace=lambda: mpe(root, xn.copy(), inplace=True), sample_inplace=lambda: sample(root, xn.copy(), inplace=True),
+        moment_order2=lambda: moment(root, 2),
+        # in-place variants last: if they are (wrongly) accepted they may rewrite the circuit
+        marginalize_nocopy=lambda: marginalize(root, [root.scope[0]], copy=False),
+        prune_nocopy=lambda: prune(root, copy=False))
     bad = []
     for name, f in calls.items():
         try:
